@@ -41,6 +41,10 @@ def config_from(options):
         elif k.startswith("compound_fields."):
             setattr(out.compound_fields, k.split(".", 1)[1], v)
         elif k.startswith("format."):
+            if k == "format.kw_only":
+                continue        # not configurable in this version (always on); older replay cases still carry the key
+            if not hasattr(out.format, k.split(".", 1)[1]):
+                raise KeyError(k)
             setattr(out.format, k.split(".", 1)[1], v)
         elif k.startswith("conventions."):
             # conventions.class_name.case = "pascalCase" | .safe_prefix = "x"
@@ -53,6 +57,9 @@ def config_from(options):
             setattr(out, k, v)
         else:
             raise KeyError(k)
+    # what constructing the configuration dataclasses with these values does
+    out.format.validate()
+    out.validate()
     return cfg
 
 
